@@ -20,6 +20,15 @@ NonMagnetic(mats)  == \A m \in DOMAIN mats : mats[m].mu = Ident9
 NoElecCond(mats)   == \A m \in DOMAIN mats : mats[m].se = Zero9
 NoMagCond(mats)    == \A m \in DOMAIN mats : mats[m].sm = Zero9
 \* expected array layout: component counts; 0 = "no array" (scalar permeability 1 / conductivity None)
+\* the same with a selectable isotropy test: "full" = IsIso; "ignore_zz" = xx = yy only (WRONG: a tensor that is
+\* uniaxial along z passes as isotropic) - used by Painter.tla's SelectTiers so that the wrong test is a negative instance
+IsIsoV(p, test) == IF test = "ignore_zz" THEN IsDiag(p) /\ p[1] = p[5] ELSE IsIso(p)
+TierOfV(p, test) == IF IsIsoV(p, test) THEN 1 ELSE IF IsDiag(p) THEN 3 ELSE 9
+WidestV(mats, f, test) == MaxOf({ TierOfV(mats[m][f], test) : m \in DOMAIN mats })
+ExpTiersV(mats, test) == [ eps |-> WidestV(mats, "eps", test),
+                           mu  |-> IF NonMagnetic(mats) THEN 0 ELSE WidestV(mats, "mu", test),
+                           se  |-> IF NoElecCond(mats) THEN 0 ELSE WidestV(mats, "se", test),
+                           sm  |-> IF NoMagCond(mats) THEN 0 ELSE WidestV(mats, "sm", test) ]
 ExpTiers(mats) == [ eps |-> Widest(mats, "eps"),
                     mu  |-> IF NonMagnetic(mats) THEN 0 ELSE Widest(mats, "mu"),
                     se  |-> IF NoElecCond(mats) THEN 0 ELSE Widest(mats, "se"),
